@@ -220,6 +220,13 @@ pub fn shopify_function_output_finalize_and_return_msgpack_bytes() -> (WriteResu
     })
 }
 
+/// Verification hook: the current thread's output bytes at any moment,
+/// finished or not (what the wasm host can see through `finalize`).
+#[cfg(shopify_function_verif)]
+pub fn verif_output_bytes() -> Vec<u8> {
+    Context::with(|context| context.output_bytes.as_slice().to_vec())
+}
+
 #[cfg(test)]
 mod tests {
     use super::*;
